@@ -106,6 +106,15 @@ def programs(tier: str):
                 elif other != "ok":
                     continue
                 yield {"block": {"kind": "ascope", "supply": [], "disp": disp, "pause": bool(cancels), "ending": ending}, "cancels": cancels}
+    # an enter that fails with a BaseException which is not an Exception: the others are rolled back
+    for other in (None, ("ok", "ok"), ("ok", "raise"), ("raise", "ok"), ("susp_ok", "ok"), ("susp_raise", "ok"), ("ok", "susp_raise")):
+        for ending in ("return", "raise"):
+            disp = [{"enter": "raise_base", "exit": "ok", "yields": "none"}]
+            if other:
+                disp.append({"enter": other[0], "exit": other[1], "yields": "none"})
+            yield {"block": {"kind": "ascope", "supply": [], "disp": disp, "pause": False, "ending": ending}, "cancels": 0}
+            if other:
+                yield {"block": {"kind": "ascope", "supply": [], "disp": list(reversed(disp)), "pause": False, "ending": ending}, "cancels": 0}
     if tier == "thorough":
         default = {"enter": "ok", "exit": "ok", "yields": "none"}
         beh = [b for b in _behaviours(False) if b != default and b["yields"] == "none"]
